@@ -107,6 +107,8 @@ def cases(tier: str, seed: int) -> list[dict]:
             for x in w["extras"]:
                 if (x.get("coord") or {}).get("kind") == "time":
                     x["coord"] = dict(x["coord"], encoding={"units": "milliseconds since 2000-01-01 00:00:00", "calendar": "proleptic_gregorian"})
+        if conv in ("cf1d", "shoc_standard", "ugrid"):
+            w["auxtime"] = True      # a second time-like variable in other units (see worlds.build)
         geoms = GW.clip_geometries(w, rng)
         pts = GW.probe_points(w, rng, limit=12)
         cli = []
